@@ -48,7 +48,7 @@ MenuC14(s) ==
          \cup {D("act", "alice", u, "", "", 0, 0) : u \in DOMAIN s.objs}
          \cup (IF s.seq >= 2
                THEN {D("loc", w, 0, n, m, -1, -1) : w \in {"alice", "bob"}, n \in FilterNames, m \in SecondFilters}
-                    \cup {D("loc", w, 0, "@none", "@none", o, m) : w \in {"alice", "bob"}, o \in {-1, 0, 1, 2, 3}, m \in {-1, 0, 1, 2, 3}}
+                    \cup {D("loc", w, 0, "@none", "@none", o, m) : w \in {"alice", "bob"}, o \in {-1, 0, 1, 2, 3, -2, -3}, m \in {-1, 0, 1, 2, 3, -2, -3}}
                     \cup {D("loc", w, 0, "Object Type", "@none", o, m) : w \in {"alice"}, o \in {-1, 0, 1}, m \in {-1, 1, 2}}
                     \cup {D("dates", w, 0, n, "", i, j) : w \in {"alice"}, n \in {"@none", "Object Type"}, i \in {100, 101, 102}, j \in {100, 101, 103}}
                ELSE {})
